@@ -52,12 +52,12 @@ if [ "$KQ" != concrete ]; then
 fi
 mkdir -p $VROOT/seeded/$ID
 cp $SRC/patch.diff $SRC/demo_test.go $VROOT/seeded/$ID/; cp $SRC/README.md $VROOT/seeded/$ID/README.md 2>/dev/null
-python3 - "$P" "$ID" "$BUILD" "$SUITE" "$SUITEFAIL" "$DEMO_WITH" "$DEMO_WITHOUT" "$CAUGHT" "$QUICK" "$THOR" "$SUB" <<'PY'
+python3 - "$P" "$ID" "$BUILD" "$SUITE" "$SUITEFAIL" "$DEMO_WITH" "$DEMO_WITHOUT" "$CAUGHT" "$QUICK" "$THOR" "$SUB" "$VROOT" <<'PY'
 import json,sys
-p,i,build,suite,sfail,dw,dwo,caught,quick,thor,sub=sys.argv[1:]
+p,i,build,suite,sfail,dw,dwo,caught,quick,thor,sub,vroot=sys.argv[1:]
 meta={"property":p,"id":i,"build":build,"suite_packages_ok":int(suite),"suite_failures":int(sfail),"demo_dir":sub,
  "demo_with_change":dw,"demo_without_change":dwo,"caught_by":caught,"check_quick_tail":quick.split("\n"),"check_thorough_tail":thor.split("\n") if thor else [],
  "ran":["git apply patch.diff","go build ./...","go test -count=1 ./...","demo test with and without the change","VERIF_REPO=<worktree> ./check %s quick|thorough"%p]}
-json.dump(meta,open('$VROOT/seeded/%s/meta.json'%i,'w'),indent=1)
+json.dump(meta,open(vroot+'/seeded/%s/meta.json'%i,'w'),indent=1)
 print("RESULT %s: build=%s suite_ok=%s suite_fail=%s demo_with=[%s] demo_without=[%s] caught=%s"%(i,build,suite,sfail,dw,dwo,caught))
 PY
